@@ -427,3 +427,40 @@ func VerifH_c04_hrandfield_extreme() {
 		vAssert("hrandfield-clamped", ok && len(a) == 1)
 	}
 }
+
+// vFloatVectors: (stored text, increment) -> text Redis stores and replies
+// (fixed notation, no exponent, trailing zeros trimmed).  Floating point is
+// out of the solver's reach: these are concrete vectors run through the
+// engine and natively, chosen at the magnitudes where formats differ.
+var vFloatVectors = []struct{ old, incr, want string }{
+	{"", "0.00001", "0.00001"}, {"", "1e21", "1000000000000000000000"}, {"10.5", "0.1", "10.6"}, {"5.0e3", "200", "5200"},
+	{"", "-2.5e-7", "-0.00000025"}, {"3", "1.5", "4.5"}, {"1", "-1", "0"}, {"0.1", "0.2", "0.30000000000000004"},
+	{"123456789", "0.125", "123456789.125"}, {"1e6", "1", "1000001"},
+}
+
+// VerifH_c04_hincrbyfloat: HINCRBYFLOAT result text (reply, HGET, HSTRLEN),
+// errors for non-numeric fields and non-finite results, field and key creation.
+func VerifH_c04_hincrbyfloat() {
+	VerifSetup()
+	cs := vNewClient()
+	v := vFloatVectors[vChoice("vector", len(vFloatVectors))]
+	if v.old != "" {
+		vCmd(cs, "HSET", "h", "f", v.old)
+	} else if vBool("other-field") {
+		vCmd(cs, "HSET", "h", "g", "1")
+	}
+	r := vCmd(cs, "HINCRBYFLOAT", "h", "f", v.incr)
+	vAssert("hincrbyfloat-reply-text", vIsText(r, v.want))
+	vAssert("hincrbyfloat-stored-text", vIsBulk(vCmd(cs, "HGET", "h", "f"), v.want))
+	vAssert("hincrbyfloat-hstrlen", vIsInt(vCmd(cs, "HSTRLEN", "h", "f"), int64(len(v.want))))
+	// a non-numeric field is refused and left alone
+	vCmd(cs, "HSET", "h", "t", "abc")
+	vAssert("hincrbyfloat-non-numeric-error", vIsErr(vCmd(cs, "HINCRBYFLOAT", "h", "t", "1")))
+	vAssert("hincrbyfloat-non-numeric-inert", vIsBulk(vCmd(cs, "HGET", "h", "t"), "abc"))
+	// a result that is not finite is refused and changes nothing
+	vCmd(cs, "HSET", "h", "big", "1e308")
+	vAssert("hincrbyfloat-overflow-error", vIsErr(vCmd(cs, "HINCRBYFLOAT", "h", "big", "1e308")))
+	vAssert("hincrbyfloat-overflow-inert", vIsBulk(vCmd(cs, "HGET", "h", "big"), "1e308"))
+	vAssert("hincrbyfloat-inf-error", vIsErr(vCmd(cs, "HINCRBYFLOAT", "nokey", "f", "inf")))
+	vAssert("hincrbyfloat-inf-creates-nothing", vIsInt(vCmd(cs, "EXISTS", "nokey"), 0))
+}
